@@ -140,3 +140,38 @@ Theorem canonical_document_decodes id ver instant dest binding issuer :
      [RElem a (b "Issuer") [] [RText issuer]])
   = Some {| a_id := id; a_version := ver; a_destination := dest; a_binding := binding; a_issuer := Some issuer; a_conditions := None; a_signature := None |}.
 Proof. vm_compute. reflexivity. Qed.
+
+(** * what the schema does not name cannot influence the handler
+    Attributes and child elements of the root that match no field of samlp.AuthnRequestType (extension attributes, elements
+    from other vocabularies, anything an attacker may add at the end of the attribute list / content) leave the decoded
+    request, hence everything the SSO model does, unchanged *)
+Definition areq_infos : list (option finfo) :=
+  Eval vm_compute in match infos xml_schema areq_fields with Some l => l | None => [] end.
+Lemma areq_infos_ok : infos xml_schema areq_fields = Some areq_infos.
+Proof. vm_compute. reflexivity. Qed.
+Lemma areq_shape : existsb (mode_is MInner) areq_infos = false /\ find_idx (mode_is MCharData) areq_infos 0 = None.
+Proof. split; vm_compute; reflexivity. Qed.
+
+Theorem unknown_content_ignored sp lc attrs kids extra_attrs extra_kids :
+  forallb (attr_unmatched areq_infos) extra_attrs = true ->
+  forallb (fun n => match n with RElem s l _ _ => elem_unmatched areq_infos s l | RText _ => true end) extra_kids = true ->
+  authn_of_doc false (RElem sp lc (attrs ++ extra_attrs) (kids ++ extra_kids)) = authn_of_doc false (RElem sp lc attrs kids).
+Proof.
+  intros Ha Hk. unfold authn_of_doc, unmarshal_root. destruct areq_zero as [vs Ez]. rewrite Ez.
+  assert (Hb : base_type xml_schema (TNamed "samlp.AuthnRequestType") = TNamed "samlp.AuthnRequestType") by (unfold base_type; now rewrite areq_lookup).
+  rewrite !(um_struct_step 39 xml_schema "samlp.AuthnRequestType" areq_fields vs sp lc _ _ Hb areq_lookup).
+  destruct areq_shape as [Hin Hcd].
+  now rewrite (um_struct_ignores_unknown xml_schema (um 39 xml_schema) areq_fields vs sp lc attrs kids extra_attrs extra_kids areq_infos areq_infos_ok Hin Hcd Ha Hk).
+Qed.
+
+Example unknown_content_example :
+  (* a field whose tag names no name space matches that local name in ANY name space: this attribute IS read *)
+  attr_unmatched areq_infos (b "urn:ext", b "Destination", b "https://evil/") = false /\
+  attr_unmatched areq_infos ([], b "destination", b "https://evil/") = true /\
+  attr_unmatched areq_infos (b "xmlns", b "x", b "urn:x") = true /\
+  elem_unmatched areq_infos (b "urn:x") (b "Evil") = true /\
+  (* the Issuer field names the assertion name space: an Issuer element of another vocabulary is ignored ... *)
+  elem_unmatched areq_infos (b "urn:x") (b "Issuer") = true /\
+  (* ... while Subject (tag without name space) would be read from any vocabulary *)
+  elem_unmatched areq_infos (b "urn:x") (b "Subject") = false.
+Proof. repeat split; vm_compute; reflexivity. Qed.
